@@ -19,7 +19,8 @@ func usage() {
 	fmt.Fprintln(os.Stderr, `usage:
   gowp check <Cxx> [--tier quick|thorough] [--only substr] [--dump dir] [-v]
   gowp list                 list functions under contract and their properties
-  gowp replay <file>        show / re-run a recorded violation`)
+  gowp replay <file>        show / re-run a recorded violation
+  gowp sweep <pkg> [-v]     zero-annotation no-panic sweep of loop-free functions (exploration)`)
 	os.Exit(2)
 }
 
@@ -36,6 +37,8 @@ func main() {
 		os.Exit(cmdReplay(os.Args[2:]))
 	case "ssa":
 		os.Exit(cmdSSA(os.Args[2:]))
+	case "sweep":
+		os.Exit(cmdSweep(os.Args[2:]))
 	default:
 		usage()
 	}
